@@ -64,7 +64,7 @@ Lemma prefix_keeps_entries : forall s p o n id ks,
   lookup (apply_calls s (firstn n (fst (plan Fixed s p o)))) id = Some ks.
 Proof.
   intros s p o n id ks Hn L.
-  destruct o as [kt|kt|kt u k|rid|gid|eid|uri]; cbn [plan] in *.
+  destruct o as [kt|kt|kt u k|rid|gid|eid|uri|inst]; cbn [plan] in *.
   - destruct (negb (kt_creatable kt)); [cbn in Hn; lia|].
     destruct (lookup s (new_id kt p p)) eqn:E; cbn [fst List.length] in Hn;
       destruct n as [|[|n]]; try lia; cbn; exact L.
@@ -84,6 +84,7 @@ Proof.
       try exact L; apply put_absent_keeps; assumption.
   - cbn [fst List.length] in Hn. destruct n; [exact L|lia].
   - cbn [fst List.length] in Hn. destruct n; [exact L|lia].
+  - cbn in Hn. lia.
   - cbn in Hn. lia.
 Qed.
 
@@ -169,7 +170,7 @@ Lemma full_plan_entry : forall s p o id ks,
      lookup (apply_calls s (fst (plan Fixed s p o))) id = None).
 Proof.
   intros s p o id ks L.
-  destruct o as [kt|kt|kt u k|rid|gid|eid|uri]; cbn [plan].
+  destruct o as [kt|kt|kt u k|rid|gid|eid|uri|inst]; cbn [plan].
   - left. destruct (negb (kt_creatable kt)); [exact L|].
     destruct (lookup s (new_id kt p p)) eqn:E; sc; [exact L|]. apply put_absent_keeps; assumption.
   - left. destruct (negb (kt_creatable kt)); [exact L|].
@@ -190,6 +191,7 @@ Proof.
       * apply lookup_remove_same.
     + apply kid_eqb_neq in EQ. left.
       rewrite lookup_remove_other by exact EQ. apply put_absent_keeps; assumption.
+  - left. sc. exact L.
   - left. sc. exact L.
   - left. sc. exact L.
   - left. sc. exact L.
@@ -266,7 +268,7 @@ Proof.
   - rewrite O in H. destruct H; discriminate.
   - rewrite C. rewrite O in H. clear C O.
     set (s := st_store st) in *. set (p := st_pos st) in *.
-    destruct o as [kt|kt|kt u k0|rid|gid|eid|uri]; cbn [plan] in *.
+    destruct o as [kt|kt|kt u k0|rid|gid|eid|uri|inst]; cbn [plan] in *.
     + destruct (negb (kt_creatable kt)); [destruct H; discriminate|].
       destruct (lookup s (new_id kt p p)) eqn:E; sca; [destruct H; discriminate|].
       destruct H as [H|H]; inversion H; subst.
@@ -304,6 +306,7 @@ Proof.
       destruct (kt_random_id (ks_kt ks) || negb (kt_exportable (ks_kt ks))); [destruct H; discriminate|].
       destruct (primary ks); destruct H; discriminate.
     + destruct H; discriminate.
+    + destruct H; discriminate.
 Qed.
 
 (* ---------- import never overwrites; no Put ever overwrites ---------- *)
@@ -333,7 +336,7 @@ Fixpoint puts_fresh (s : store) (cs : list scall) : Prop :=
 Lemma plan_puts_fresh : forall v s p o, puts_fresh s (fst (plan v s p o)).
 Proof.
   intros v s p o.
-  destruct o as [kt|kt|kt u k|rid|gid|eid|uri]; cbn [plan].
+  destruct o as [kt|kt|kt u k|rid|gid|eid|uri|inst]; cbn [plan].
   - destruct (negb (kt_creatable kt)); [exact I|].
     destruct (lookup s (new_id kt p p)) eqn:E; cbn; auto.
   - destruct (negb (kt_creatable kt)); [exact I|].
@@ -347,6 +350,7 @@ Proof.
     + destruct (lookup s (new_id (ks_kt oks) p p)) eqn:E2; cbn; auto.
   - cbn; auto.
   - cbn; auto.
+  - exact I.
   - exact I.
 Qed.
 
@@ -476,7 +480,7 @@ Proof. unfold new_id. destruct (kt_random_id kt); intro H; inversion H; reflexiv
 Lemma plan_calls_wf : forall v s p o, calls_wf (fst (plan v s p o)).
 Proof.
   intros v s p o.
-  destruct o as [kt|kt|kt u k|rid|gid|eid|uri]; cbn [plan].
+  destruct o as [kt|kt|kt u k|rid|gid|eid|uri|inst]; cbn [plan].
   - destruct (negb (kt_creatable kt)); [exact I|].
     destruct (lookup s (new_id kt p p)); cbn [calls_wf fst]; auto.
     split; auto. intros k E. apply new_id_thumb in E. subst. reflexivity.
@@ -496,6 +500,7 @@ Proof.
       split; auto. intros k E. apply new_id_thumb in E. subst. apply primary_snoc.
   - cbn [calls_wf fst]; auto.
   - cbn [calls_wf fst]; auto.
+  - exact I.
   - exact I.
 Qed.
 
